@@ -247,6 +247,8 @@ class Interp:
     def global_ptr(s, name):
         if name in s.gaddr: return s.gaddr[name]
         if name in s.m.funcs or name in s.m.decls: return FnPtr(name)
+        if name in ('@_ZSt4cout', '@_ZSt4cerr', '@_ZSt4clog'):
+            r = make_ostream(s, name); s.gaddr[name] = r; return r
         rest = s.m.globals.get(name)
         if rest is None: raise Unsupported('unknown global ' + name)
         toks = tokenize(rest); p = P(toks)
@@ -833,3 +835,25 @@ def alloc_i64(it, name, vals):
     for i, v in enumerate(vals): it.store(Ptr(p.obj, 8 * i), v if is_sym(v) else v & ((1 << 64) - 1), 8)
     return p
 def sgn64(x): return x - (1 << 64) if isinstance(x, int) and x >> 63 else x
+
+
+def make_ostream(it, name):
+    """A minimal std::ostream object for code that writes progress messages to std::cout: vptr with virtual-base offset,
+    basic_ios with a ctype facet whose widen() table is the identity; everything written goes to the output sinks."""
+    tys = it.m.types
+    obj = it.alloc(1024, name + '(model)')
+    vt = it.alloc(128, 'ostream-vtable(model)')
+    it.zerofill(obj, 1024); it.zerofill(vt, 128)
+    it.store(Ptr(obj.obj, 0), Ptr(vt.obj, 64), 8)
+    it.store(Ptr(vt.obj, 64 - 24), 8, 8)                       # vbase offset: basic_ios lives at +8
+    try:
+        ios = NamedTy('%"class.std::basic_ios"'); ct = NamedTy('%"class.std::ctype"')
+        off_ctype = it.field_off(ios, 5)
+        fac = it.alloc(max(1024, it.size(ct)), 'ctype<char>(model)'); it.zerofill(fac, max(1024, it.size(ct)))
+        it.store(Ptr(obj.obj, 8 + off_ctype), fac, 8)
+        it.store(Ptr(fac.obj, it.field_off(ct, 6)), 1, 1)      # _M_widen_ok
+        w = it.field_off(ct, 7)
+        for c in range(256): it.store(Ptr(fac.obj, w + c), c, 1)
+    except Exception:
+        pass
+    return obj
